@@ -6,7 +6,7 @@ import subprocess
 
 PROP = "C01"
 ENGINE = "osc"
-LEAN_MODULES = ["RtoscModel.Props.C01"]
+LEAN_MODULES = ["RtoscModel.Props.C01", "RtoscModel.Props.C01Tables"]
 THEOREMS = [
     "Rtosc.Osc.sizeNull_eq_spec_length",
     "Rtosc.Osc.amessage_eq_spec",
@@ -15,8 +15,9 @@ THEOREMS = [
     "Rtosc.Osc.vmessage_eq_spec",
     "Rtosc.Osc.avmessage_eq_spec",
     "Rtosc.Osc.three_constructors_agree",
-    "Rtosc.Osc.ringLength_encode",
-    "Rtosc.Osc.messageLength_encode",
+    "Rtosc.Osc.ringLength_encode_partial",
+    "Rtosc.Osc.messageLength_encode_partial",
+    "Rtosc.Osc.messageLength_encode_counterexample",
     "Rtosc.Osc.read_encode_argString",
     "Rtosc.Osc.read_encode_type",
     "Rtosc.Osc.read_encode_argument",
@@ -26,23 +27,49 @@ THEOREMS = [
 ]
 HARNESS = {"src": ["osc.cpp"], "deps": ["common.h"]}
 RULE = ("every type string over the 17 symbols up to length 3 (exhaustive: 5219 strings) with value vectors from "
-        "boundary sets, random type strings up to 40 tags, addresses of every length 1..64, each through "
-        "rtosc_amessage / rtosc_vmessage (hand-built va_list) / rtosc_avmessage, plus 12 literal rtosc_message call "
-        "sites; destination capacity = size + 0..8, exactly size, too small, or NULL; random trailing bytes behind the "
-        "message for rtosc_message_length and the readers; a raw stream (random and mutated bytes) for "
-        "rtosc_message_length only. Non-trivial = at least one payload-carrying argument; distinct = distinct op line")
+        "boundary sets, random type strings up to 40 tags and a stream with 41..300 tags, addresses of every length "
+        "1..64 starting with '/', a stream of addresses of printable bytes that do not start with '/' ('#'-leading ones, "
+        "\"#bundle\"+suffix and a few times exactly \"#bundle\" included), strings and blobs of 0..64 bytes everywhere and of "
+        "127..1100 bytes (a few of 4 KiB..70 KiB) in a stream of their own, each through rtosc_amessage / rtosc_vmessage "
+        "(hand-built va_list) / rtosc_avmessage, plus 12 literal rtosc_message call sites; destination capacity = "
+        "size + 0..8, exactly size, too small, or NULL; destination and the block handed to the readers placed at every "
+        "address residue mod 4; random trailing bytes behind the message for rtosc_message_length and the readers (1..12 "
+        "bytes, in an extra stream 0..64). Non-trivial = at least one payload-carrying argument; distinct = distinct op line")
 ASSUMPTIONS = ["address non-empty and NUL-free, string arguments NUL-free, blob length 0 <= len < 2^31 and not larger "
-               "than the data block (NULL data allowed: encodes as zero bytes), message shorter than 2^31 bytes",
-               "arg-val lists contain no ranges ('-') and no arrays ('a') (range expansion is C16)",
-               "double -> float conversion of the varargs path is the target's (round to nearest even, NaN quieted)"]
+               "than the data block (NULL data allowed: encodes as zero bytes)",
+               "message shorter than 2^32 bytes (Msg.WF.size; `unsigned pos` in the C code); the iterator and "
+               "argument-count theorems need it shorter than 2^31 bytes (`int size` in rtosc_itr_next)",
+               "length clause (ringLength_encode_partial / messageLength_encode_partial): the address is not exactly "
+               "\"#bundle\" - the encoding of such a message begins with the eight bytes by which rtosc_message_length "
+               "recognises a bundle, so the clause is false for it (messageLength_encode_counterexample, known finding "
+               "C01-K1). Every other address, '#'-leading ones included, is covered. An OSC 1.0 address starts with '/', "
+               "so \"#bundle\" is not an OSC address, but the constructors accept it and the property text says 'any address'",
+               "varargs clause (vmessage_eq_spec, three_constructors_agree): narrow(widen v) = v for the values v passed "
+               "under an 'f' tag (float -> double promotion at the call site, double -> float in rtosc_v2args); nothing "
+               "is assumed about i/c/r values",
+               "arg-val lists contain no ranges ('-') and no arrays ('a') (range expansion is C16); array brackets are "
+               "given as '[' / ']' elements",
+               "double -> float conversion of the varargs path is the target's (round to nearest even, NaN quieted)",
+               "outside this property (C02): bytes behind the message, content/return value for a too small buffer; "
+               "(C07): rtosc_message_length on bytes that are not an encoded message; type strings with bytes that "
+               "are not type tags"]
 TRUSTED = ["hand-written models RtoscModel/Osc/{Encode,Read,Length}.lean of src/rtosc.c and src/cpp/arg-val.c",
-           "x86-64 SysV va_list layout (hand-built va_list in harness/osc.cpp)"]
+           "x86-64 SysV va_list layout (hand-built va_list in harness/osc.cpp)",
+           "regex extraction of the per-tag switch tables (translate_tables) - the tables are tied to the "
+           "specification's classification `kind`, not to the model functions, which hard-code the tags"]
 LEVEL_TEXT = ("Lean theorems: the three constructors produce exactly Spec.encode and return its length for every "
-              "well-formed message of any size; rtosc_message_length of those bytes followed by anything is that length; "
-              "argument string, type by index, argument by index and the iterator reproduce tags and values bit-identically; "
-              "rtosc_narguments equals the iterator count. The models are compared with the compiled implementation "
-              "(ASan/UBSan) on tens of thousands of generated messages per run and the property is evaluated directly on "
-              "the implementation's output by an independent Python codec")
+              "well-formed message shorter than 2^32 bytes (varargs: given that the float conversions round-trip on the "
+              "'f'-tagged values); rtosc_message_length of those bytes followed by anything is that length for every "
+              "address except exactly \"#bundle\" (for which it is proved false: known finding C01-K1); "
+              "argument string, type by index, argument by index and (messages shorter than 2^31 bytes) the iterator "
+              "reproduce tags and values bit-identically; rtosc_narguments equals the iterator count. The models are "
+              "compared with the compiled implementation (ASan/UBSan, every pointer residue mod 4) on tens of thousands "
+              "of generated messages per run and the property is evaluated directly on the implementation's output by "
+              "an independent Python codec")
+LEVEL_NOTE = ("Trusted: Lean kernel; the hand-written model is tied to the code by differential execution only; see "
+              "evidence trusted_base. Length clause partial: *_partial theorems + messageLength_encode_counterexample (C01-K1); "
+              "ringLength_encode's split-ring generality is proved but this engine only exercises the unsplit block "
+              "(split rings are C06's engine)")
 
 VERIF = os.path.dirname(os.path.dirname(os.path.dirname(os.path.abspath(__file__))))
 TAGS = b"ifsbhtdScrmTFNI[]"
@@ -238,45 +265,150 @@ def rand_arg(rng, tag, mode, stats):
     return (n, data)
 
 
+BIG_LENS = [127, 128, 129, 130, 131, 255, 256, 257, 258, 300, 511, 512, 513, 1023, 1024, 1025, 1100]
+HUGE_LENS = [4095, 4096, 4097, 5000, 8191, 8192, 65535, 65536, 65537, 70000]
+BUNDLE = b"#bundle"
+
+
 def rand_addr(rng, n=None):
     if n is None:
         n = rng.randint(1, 64) if rng.random() < 0.3 else rng.randint(1, 12)
     return b"/" + bytes(rng.randint(0x21, 0x7e) for _ in range(n - 1))
 
 
-def make_case(rng, stats, tags, mode=None, addr=None):
+def odd_addr(rng, stats):
+    """addresses of printable bytes that need not start with '/' (never exactly "#bundle")"""
+    r = rng.random()
+    if r < 0.35:
+        a = BUNDLE + bytes(rng.randint(0x21, 0x7e) for _ in range(rng.randint(1, 6)))
+        stats["addr_bundle_prefix"] += 1
+    elif r < 0.50:
+        a = BUNDLE[:rng.randint(1, 6)] + bytes(rng.randint(0x21, 0x7e) for _ in range(rng.randint(0, 3)))
+    elif r < 0.65:
+        a = b"#" + bytes(rng.randint(0x20, 0x7e) for _ in range(rng.randint(0, 9)))
+    elif r < 0.75:
+        a = bytes(rng.choice(b",#/ ") for _ in range(rng.randint(1, 5)))
+    else:
+        a = bytes(rng.randint(0x20, 0x7e) for _ in range(rng.randint(1, 12)))
+    if a == BUNDLE:
+        a += b"s"
+    if a[:1] == b"#":
+        stats["addr_hash"] += 1
+    if a[:1] != b"/":
+        stats["addr_no_slash"] += 1
+    return a
+
+
+def big_arg(rng, tag, mode, stats, lens, p=0.3):
+    t = bytes([tag])
+    if t == b"b" and rng.random() < p:
+        n = rng.choice(lens)
+        stats["big_blob"] += 1
+        r = rng.random()
+        if r < 0.1:
+            return (n, None)
+        data = bytes(rng.getrandbits(8) for _ in range(n + (rng.randint(1, 5) if r < 0.2 else 0)))
+        return (n, data)
+    if t in b"sS" and rng.random() < p:
+        stats["big_str"] += 1
+        return rand_nonnul(rng, rng.choice(lens))
+    return rand_arg(rng, tag, mode, stats)
+
+
+def fresh_stats():
+    return {"mode_A": 0, "mode_V": 0, "mode_M": 0, "literal": 0, "raw": 0, "cap_slack": 0,
+            "cap_exact": 0, "cap_too_small": 0, "cap_null": 0, "with_rest": 0, "addr_mod4": [0, 0, 0, 0],
+            "ntags_hist": {}, "tag_count": {}, "leading_bracket": 0, "empty_str": 0, "null_blob": 0,
+            "f_via_double": 0, "exhaustive_len3": 0, "big_str": 0, "big_blob": 0, "huge": 0, "addr_hash": 0,
+            "addr_no_slash": 0, "addr_bundle_prefix": 0, "addr_exactly_bundle": 0, "msg_size_hist": {}}
+
+
+def _bucket(n, edges):
+    for e in edges:
+        if n <= e:
+            return "<=%d" % e
+    return ">%d" % edges[-1]
+
+
+def make_case(rng, stats, tags, mode=None, addr=None, args=None, cap_kind=None):
     mode = mode or rng.choice("AVM")
     addr = addr or rand_addr(rng)
-    args = [rand_arg(rng, t, mode, stats) for t in tags if bytes([t]) in PAYLOAD]
+    if args is None:
+        args = [rand_arg(rng, t, mode, stats) for t in tags if bytes([t]) in PAYLOAD]
     abstract = [narrow(a) if (bytes([t]) == b"f" and mode in "VL") else a
                 for t, a in zip([t for t in tags if bytes([t]) in PAYLOAD], args)]
     total = len(encode(addr, tags, abstract))
     r = rng.random()
-    if r < 0.70:
+    if cap_kind is None:
+        cap_kind = "slack" if r < 0.70 else "exact" if r < 0.85 else "too_small" if r < 0.93 else "null"
+    if cap_kind == "slack":
         cap = total + rng.randint(0, 8)
-        ck = "slack"
-    elif r < 0.85:
+    elif cap_kind == "exact":
         cap = total
-        ck = "exact"
-    elif r < 0.93:
+    elif cap_kind == "too_small":
         cap = rng.randint(0, total - 1)
-        ck = "too_small"
     else:
         cap = None
-        ck = "null"
-    stats["cap_" + ck] += 1
+    stats["cap_" + cap_kind] += 1
     rest = b""
     if rng.random() < 0.5:
         rest = bytes(rng.getrandbits(8) if rng.random() < 0.7 else rng.choice(b"\0,/#ib") for _ in range(rng.randint(1, 12)))
         stats["with_rest"] += 1
     stats["mode_" + mode] += 1
     stats["addr_mod4"][len(addr) % 4] += 1
-    stats["ntags_hist"][min(len(tags), 41) // 5] += 1
+    k = _bucket(len(tags), [0, 3, 8, 16, 40, 120, 300])
+    stats["ntags_hist"][k] = stats["ntags_hist"].get(k, 0) + 1
+    k = _bucket(total, [16, 64, 256, 1024, 4096, 65536])
+    stats["msg_size_hist"][k] = stats["msg_size_hist"].get(k, 0) + 1
     for t in tags:
         stats["tag_count"][chr(t)] = stats["tag_count"].get(chr(t), 0) + 1
     if tags[:1] in (b"[", b"]"):
         stats["leading_bracket"] += 1
     return op_line(mode, cap, addr, tags, rest, args)
+
+
+def wide_case(rng, stats):
+    """the classes the white-box review found untested: long strings/blobs, many tags, odd addresses"""
+    mode = rng.choice("AVM")
+    r = rng.random()
+    if r < 0.15:
+        tags = rand_tags(rng, 41, 120)
+    elif r < 0.165:
+        tags = rand_tags(rng, 121, 300)
+    elif r < 0.5:
+        tags = bytes(rng.choice(b"sSbsSbifhTm[]") for _ in range(rng.randint(1, 5)))
+    else:
+        tags = rand_tags(rng, 0, 6)
+    r = rng.random()
+    if r < 0.25:
+        addr = odd_addr(rng, stats)
+    elif r < 0.30:
+        addr = rand_addr(rng, rng.choice(BIG_LENS[:10]))         # long addresses
+    else:
+        addr = rand_addr(rng)
+    p = 0.3 if len(tags) <= 8 else 0.05
+    args = [big_arg(rng, t, mode, stats, BIG_LENS, p) for t in tags if bytes([t]) in PAYLOAD]
+    return make_case(rng, stats, tags, mode=mode, addr=addr, args=args)
+
+
+def huge_case(rng, stats, n):
+    """one string or blob of n bytes (4 KiB .. 70 KiB); blobs only above 8 KiB (the model's
+    rtosc_message_length is quadratic in the length of a string)"""
+    stats["huge"] += 1
+    kind = rng.choice("sSb") if n <= 8192 else "b"
+    pre = rand_tags(rng, 0, 2)
+    post = rand_tags(rng, 0, 2)
+    tags = pre + kind.encode() + post
+    mode = rng.choice("AVM")
+    args = []
+    for k, t in enumerate(tags):
+        if bytes([t]) not in PAYLOAD:
+            continue
+        if k == len(pre):
+            args.append((n, bytes(rng.getrandbits(8) for _ in range(n))) if kind == "b" else rand_nonnul(rng, n))
+        else:
+            args.append(rand_arg(rng, t, mode, stats))
+    return make_case(rng, stats, tags, mode=mode, args=args, cap_kind=rng.choice(["slack", "exact", "null"]))
 
 
 def _f(x):
@@ -342,10 +474,7 @@ def rand_tags(rng, lo, hi):
 
 def generate(rng, tier, stats):
     quick = tier == "quick"
-    stats.update({"mode_A": 0, "mode_V": 0, "mode_M": 0, "literal": 0, "raw": 0, "junk_tags": 0, "cap_slack": 0,
-                  "cap_exact": 0, "cap_too_small": 0, "cap_null": 0, "with_rest": 0, "addr_mod4": [0, 0, 0, 0],
-                  "ntags_hist": [0] * 9, "tag_count": {}, "leading_bracket": 0, "empty_str": 0, "null_blob": 0,
-                  "f_via_double": 0, "exhaustive_len3": 0})
+    stats.update(fresh_stats())
     # literal call sites
     for k, (addr, tags, args) in enumerate(LITERALS):
         total = len(encode(addr, tags, [narrow(a) if bytes([t]) == b"f" else a
@@ -363,48 +492,44 @@ def generate(rng, tier, stats):
     for n in range(1, 65):
         for _ in range(2 if quick else 20):
             yield make_case(rng, stats, rand_tags(rng, 0, 6), addr=rand_addr(rng, n))
+    # long strings / blobs, many tags, addresses that do not start with '/'
+    for _ in range(3000 if quick else 60000):
+        yield wide_case(rng, stats)
+    # odd addresses with ordinary arguments, every mode
+    for _ in range(600 if quick else 10000):
+        yield make_case(rng, stats, rand_tags(rng, 0, 6), addr=odd_addr(rng, stats))
+    # exactly "#bundle" (known finding C01-K1: rtosc_message_length takes the message for a bundle)
+    for _ in range(12 if quick else 200):
+        stats["addr_exactly_bundle"] += 1
+        yield make_case(rng, stats, rand_tags(rng, 0, 4), addr=BUNDLE, cap_kind=rng.choice(["slack", "exact"]))
+    # a few really long arguments
+    for n in (rng.sample(HUGE_LENS[:6], 3) + rng.sample(HUGE_LENS[6:], 2) if quick else HUGE_LENS * 3):
+        yield huge_case(rng, stats, n)
     # random longer type strings
-    for _ in range(12000 if quick else 400000):
+    for _ in range(10000 if quick else 400000):
         yield make_case(rng, stats, rand_tags(rng, 0, 40) if rng.random() < 0.5 else rand_tags(rng, 0, 8))
-    # type strings with bytes that are not tags (default branches of every switch); A and V only
-    for _ in range(600 if quick else 20000):
-        tags = bytes(rng.choice(b"ifsbTx.Z0a") for _ in range(rng.randint(1, 8)))
-        stats["junk_tags"] += 1
-        yield make_case(rng, stats, tags, mode=rng.choice("AV"))
-    # raw stream for rtosc_message_length (never starts a bundle)
-    for _ in range(6000 if quick else 300000):
+    # rtosc_message_length alone: an encoded message followed by 0..64 arbitrary bytes
+    for _ in range(3000 if quick else 100000):
         stats["raw"] += 1
+        tags = rand_tags(rng, 0, 6) if rng.random() < 0.8 else rand_tags(rng, 7, 40)
+        tmp = fresh_stats()
+        args = [big_arg(rng, t, "A", tmp, BIG_LENS, 0.05) for t in tags if bytes([t]) in PAYLOAD]
+        addr = odd_addr(rng, tmp) if rng.random() < 0.15 else rand_addr(rng)
+        m = encode(addr, tags, [a if not isinstance(a, tuple) else (a[0], None if a[1] is None else a[1][:a[0]])
+                                for a in args])
         r = rng.random()
-        if r < 0.6:
-            tags = rand_tags(rng, 0, 6)
-            args = [rand_arg(rng, t, "A", {"empty_str": 0, "null_blob": 0, "f_via_double": 0})
-                    for t in tags if bytes([t]) in PAYLOAD]
-            m = bytearray(encode(rand_addr(rng), tags, args))
-            c = rng.randint(0, 4)
-            if c == 0:
-                m = m[:rng.randint(0, len(m))]
-            elif c == 1:
-                m[rng.randrange(len(m))] = rng.getrandbits(8)
-            elif c == 2:
-                i = rng.randrange(len(m))
-                m[i:i] = bytes(rng.getrandbits(8) for _ in range(rng.randint(1, 4)))
-            elif c == 3:
-                m += bytes(rng.getrandbits(8) for _ in range(rng.randint(1, 8)))
-            else:
-                i = rng.randrange(len(m))
-                m[i] = rng.choice([0, 0x2c, 0x62, 0x73, 0xff, 0x80, 0x7f])
-            m = bytes(m)
+        if r < 0.2:
+            tail = b""
+        elif r < 0.5:
+            tail = bytes(rng.choice(b"\0\0/,#isb\xff\x01") for _ in range(rng.randint(1, 64)))
         else:
-            m = bytes(rng.choice(b"\0\0/,isb\xff\x01ab") if rng.random() < 0.8 else rng.getrandbits(8)
-                      for _ in range(rng.randint(0, 24)))
-        if m[:1] == b"#":
-            m = b"/" + m[1:]
-        yield "R " + hx(m)
+            tail = bytes(rng.getrandbits(8) for _ in range(rng.randint(1, 64)))
+        yield "R %s %d" % (hx(m + tail), len(m))
 
 
 def nontrivial(op):
     w = op.split()
-    return w[0] != "R" and len(w) > 5
+    return w[0] not in ("R", "Q") and len(w) > 5
 
 
 # ---------------------------------------------------------------------------------------
@@ -433,13 +558,20 @@ def show_val(tag, a, off):
 
 
 def expected(mode, cap, addr, tags, rest, args):
+    """what the property demands of the output line: {field: value}.  Only C01's observables:
+    the size query, and - when the buffer is large enough - return value, the message bytes
+    buffer[0..ret) and every reader.  Bytes behind the message and the too-small case are C02's."""
     spec = encode(addr, tags, args)
     total = len(spec)
+    exp = {"z": str(total)}
     if cap is None:
-        return "r=%d z=%d b=NULL" % (total, total)
+        exp["r"] = str(total)
+        exp["b"] = "NULL"
+        return exp
     if cap < total:
-        return "r=0 z=%d b=%s" % (total, hx(b"\0" * cap))
-    head = "r=%d z=%d b=%s" % (total, total, hx(spec + b"\xaa" * (cap - total)))
+        return exp
+    exp["r"] = str(total)
+    exp["b"] = hx(spec)
     # values in order, with the offsets the specification assigns
     off = len(pad_str(addr)) + len(pad_str(b"," + tags))
     vals = []
@@ -456,8 +588,9 @@ def expected(mode, cap, addr, tags, rest, args):
             vals.append(show_val(t, None, 0))
     types = bytes(t for t in tags if bytes([t]) not in b"[]")
     v = ",".join(vals) if vals else "-"
-    return head + " len=%d as=%d:%s n=%d ty=%s av=%s it=%s" % (
-        total, len(pad_str(addr)) + 1, hx(tags), len(types), hx(types), v, v)
+    exp.update({"len": str(total), "as": "%d:%s" % (len(pad_str(addr)) + 1, hx(tags)), "n": str(len(types)),
+                "ty": hx(types), "av": v, "it": v})
+    return exp
 
 
 def wellformed(addr, tags, args):
@@ -473,46 +606,86 @@ def wellformed(addr, tags, args):
     return True
 
 
-def oracle(op, out):
-    if out.startswith("crash"):
-        return "implementation crashed: " + out
-    if op.startswith("R "):
-        m = re.fullmatch(r"len=(\d+)", out)
-        n = len(unhx(op.split()[1]))
-        if not m:
-            return "unparsable output"
-        if int(m.group(1)) > n:
-            return "rtosc_message_length returned %s for %d bytes" % (m.group(1), n)
-        return None
+NAMES = {"r": "return value", "z": "size for NULL buffer", "b": "message bytes", "len": "rtosc_message_length",
+         "as": "rtosc_argument_string", "n": "rtosc_narguments", "ty": "rtosc_type", "av": "rtosc_argument",
+         "it": "rtosc_itr_*"}
+
+
+def _fields(out):
+    return dict(x.split("=", 1) for x in out.split() if "=" in x)
+
+
+def bad_fields(op, out):
+    """fields of the output line that differ from what the property demands (None: op outside the property)"""
     mode, cap, addr, tags, rest, args = parse_op(op)
     if not wellformed(addr, tags, args):
         return None
     exp = expected(mode, cap, addr, tags, rest, args)
-    if out != exp:
-        # say which observable differs
-        fo = dict(x.split("=", 1) for x in out.split() if "=" in x)
-        fe = dict(x.split("=", 1) for x in exp.split() if "=" in x)
-        bad = [k for k in fe if fo.get(k) != fe[k]]
-        names = {"r": "return value", "z": "size for NULL buffer", "b": "bytes written", "len": "rtosc_message_length",
-                 "as": "rtosc_argument_string", "n": "rtosc_narguments", "ty": "rtosc_type", "av": "rtosc_argument",
-                 "it": "rtosc_itr_*"}
+    fo = _fields(out)
+    return [(k, exp[k], fo.get(k)) for k in exp if fo.get(k) != exp[k]]
+
+
+def _short(x):
+    x = str(x)
+    return x if len(x) <= 80 else x[:60] + "...(%d chars)" % len(x)
+
+
+def oracle(op, out):
+    if out.startswith("crash"):
+        return "implementation crashed: " + out
+    w = op.split()
+    if w[0] == "Q":            # outside the property: regression witnesses of C07 fixes
+        return None if out == "len<=n" else "rtosc_message_length: " + out
+    if w[0] == "R":
+        m = re.fullmatch(r"len=(\d+)", out)
+        if not m:
+            return "unparsable output"
+        if len(w) > 2 and int(m.group(1)) != int(w[2]):
+            return "rtosc_message_length returned %s for an encoded message of %s bytes followed by %d bytes" % (
+                m.group(1), w[2], len(unhx(w[1])) - int(w[2]))
+        if int(m.group(1)) > len(unhx(w[1])):
+            return "rtosc_message_length returned %s for %d bytes" % (m.group(1), len(unhx(w[1])))
+        return None
+    if "stored-in-front-of-buffer" in out:
+        return "the constructor stored in front of the destination buffer"
+    bad = bad_fields(op, out)
+    if bad:
         return "OSC 1.0 codec disagrees on: " + ", ".join("%s (expected %s, got %s)" % (
-            names.get(k, k), fe[k][:80], str(fo.get(k))[:80]) for k in bad[:3])
+            NAMES.get(k, k), _short(e), _short(g)) for k, e, g in bad[:3])
+    return None
+
+
+def known(op, impl_out, model_out, defs):
+    """C01-K1: a message whose address is exactly "#bundle" is taken for a bundle by rtosc_message_length.
+    Attributed only if the trigger holds, rtosc_message_length is the *only* observable that is off, and the
+    output is what the defect-mirroring model predicts (when the model ran)."""
+    if not any(d.get("id") == "C01-K1" for d in defs):
+        return None
+    w = op.split()
+    if w[0] in ("R", "Q") or impl_out.startswith("crash"):
+        return None
+    if unhx(w[2]) != BUNDLE:
+        return None
+    if model_out is not None and model_out != impl_out:
+        return None
+    bad = bad_fields(op, impl_out)
+    if bad and [k for k, _, _ in bad] == ["len"]:
+        return "C01-K1"
     return None
 
 
 def neighbours(op, rng):
     """inputs near a disagreement: same type string, other values / modes"""
-    if op.startswith("R "):
+    if op.split()[0] in ("R", "Q"):
         return
     mode, cap, addr, tags, rest, args = parse_op(op)
-    st = {"mode_A": 0, "mode_V": 0, "mode_M": 0, "cap_slack": 0, "cap_exact": 0, "cap_too_small": 0, "cap_null": 0,
-          "with_rest": 0, "addr_mod4": [0, 0, 0, 0], "ntags_hist": [0] * 9, "tag_count": {}, "leading_bracket": 0,
-          "empty_str": 0, "null_blob": 0, "f_via_double": 0}
+    st = fresh_stats()
     for m in "AVM":
         for _ in range(200):
             yield make_case(rng, st, tags, mode=m)
-    for n in range(1, len(tags) + 1):
+    for _ in range(200):
+        yield make_case(rng, st, tags, addr=addr)
+    for n in range(1, min(len(tags), 40) + 1):
         for _ in range(20):
             yield make_case(rng, st, tags[:n])
             yield make_case(rng, st, tags[-n:])
@@ -567,21 +740,22 @@ def _switches(body):
     return out
 
 
-def translate_tables():
-    import vlib
-    src = open(os.path.join(vlib.REPO, "src/rtosc.c")).read()
+TABLE_SOURCES = [   # (table, function of src/rtosc.c, index of the switch in it, classifier)
+    ("hasReservedTab", "has_reserved", 0, "reserved"),
+    ("argSizeTab", "arg_size", 0, "argsize"),
+    ("sizeNullTab", "vsosc_null", 0, "size"),
+    ("writeTab", "rtosc_amessage", 0, "write"),
+    ("extractTab", "extract_arg", 1, "extract"),
+    ("ringLengthTab", "rtosc_message_ring_length", 0, "size"),
+]
+TABLES_PATH = os.path.join(VERIF, "lean", "RtoscModel", "Generated", "OscTables.lean")
+_PSEUDO = []          # obligations added by the translator for this run (see translate_tables)
+
+
+def extract_tables(src):
+    """-> ({table: rows}, {table: reason it could not be read})"""
     src = re.sub(r"//[^\n]*", "", src)
     src = re.sub(r"/\*.*?\*/", "", src, flags=re.S)
-
-    def table(func, which, classify):
-        sw = _switches(_func_body(src, func))[which]
-        rows = []
-        for chars, stmts in _switch_cases(sw):
-            v = classify(stmts)
-            for c in chars:
-                if c != "default":
-                    rows.append((ord(c), v))
-        return sorted(rows)
 
     def cls_reserved(st):
         m = re.search(r"return\s+(\d)", st)
@@ -624,34 +798,111 @@ def translate_tables():
             return 1
         return n
 
-    tabs = {
-        "hasReservedTab": table("has_reserved", 0, cls_reserved),
-        "argSizeTab": table("arg_size", 0, cls_argsize),
-        "sizeNullTab": table("vsosc_null", 0, cls_size),
-        "writeTab": table("rtosc_amessage", 0, cls_write),
-        "extractTab": table("extract_arg", 1, cls_extract),
-        "ringLengthTab": table("rtosc_message_ring_length", 0, cls_size),
-    }
-    for k, rows in tabs.items():
-        if not rows:
-            raise ValueError("table %s came out empty" % k)
+    classifiers = {"reserved": cls_reserved, "size": cls_size, "argsize": cls_argsize, "write": cls_write,
+                   "extract": cls_extract}
+    tabs, errs = {}, {}
+    for name, func, which, ck in TABLE_SOURCES:
+        try:
+            sw = _switches(_func_body(src, func))[which]
+            rows = []
+            for chars, stmts in _switch_cases(sw):
+                v = classifiers[ck](stmts)
+                for c in chars:
+                    if c != "default":
+                        rows.append((ord(c[-1]), v))
+            if not rows:
+                raise ValueError("no case labels")
+            tabs[name] = sorted(rows)
+        except Exception as e:
+            errs[name] = "%s: %s" % (func, e)
+    return tabs, errs
+
+
+def render_tables(tabs):
     lines = ["/-", "  GENERATED by tools/props/c01.py (translate_tables) from src/rtosc.c — do not edit.",
              "  One row per `case` label of the per-tag switch statements: (tag, class) with class",
              "  8 / 4 = fixed payload of that many bytes, 1 = NUL-terminated padded string, 2 = blob,",
              "  0 = no payload; for `has_reserved` the class is the returned value.", "-/",
              "namespace Rtosc.Osc.Generated", ""]
-    for k, rows in tabs.items():
-        lines.append("def %s : List (Nat × Nat) := [%s]" % (k, ", ".join("(%d, %d)" % r for r in rows)))
+    for name, _, _, _ in TABLE_SOURCES:
+        lines.append("def %s : List (Nat × Nat) := [%s]" % (name, ", ".join("(%d, %d)" % r for r in tabs[name])))
     lines += ["", "end Rtosc.Osc.Generated", ""]
-    txt = "\n".join(lines)
-    path = os.path.join(VERIF, "lean", "RtoscModel", "Generated", "OscTables.lean")
-    os.makedirs(os.path.dirname(path), exist_ok=True)
-    old = open(path).read() if os.path.exists(path) else None
-    if old != txt:
-        with open(path, "w") as f:
-            f.write(txt)
-        return "OscTables.lean regenerated (changed)"
-    return "OscTables.lean regenerated (unchanged)"
+    return "\n".join(lines)
+
+
+def parse_tables(txt):
+    out = {}
+    for m in re.finditer(r"def (\w+) : List \(Nat × Nat\) := \[([^\]]*)\]", txt):
+        out[m.group(1)] = sorted((int(a), int(b)) for a, b in re.findall(r"\((\d+), (\d+)\)", m.group(2)))
+    return out
+
+
+def table_diff(old, new):
+    """entries that differ: [(table, tag, class in old | None, class in new | None)]"""
+    out = []
+    for name, _, _, _ in TABLE_SOURCES:
+        a, b = dict(old.get(name, [])), dict(new.get(name, []))
+        for t in sorted(set(a) | set(b)):
+            if a.get(t) != b.get(t):
+                out.append((name, t, a.get(t), b.get(t)))
+    return out
+
+
+def _ident(x):
+    return re.sub(r"[^A-Za-z0-9_]", "_", str(x))
+
+
+def _set_pseudo(names):
+    for n in _PSEUDO:
+        if n in THEOREMS:
+            THEOREMS.remove(n)
+    _PSEUDO[:] = names
+    THEOREMS.extend(names)
+
+
+def translate_tables():
+    """Regenerates lean/RtoscModel/Generated/OscTables.lean (the input of `tables_agree`, module
+    RtoscModel.Props.C01Tables) from the working tree's src/rtosc.c.
+
+    * run against /repo itself: the file is rewritten when its content changes; if the tables no longer
+      agree with the specification the module C01Tables stops building and its build log (which goes into
+      the replay) names table and tag (`#eval` in Props/C01Tables.lean).
+    * run against a scratch tree (VERIF_REPO=...): the shared file is never touched.  The freshly extracted
+      tables are compared with the committed file, whose agreement with the specification is what
+      `tables_agree` proves; every entry that differs therefore is an entry where this tree's table does
+      not agree, and is reported as an obligation that does not check, its name saying table and tag:
+      Rtosc.Osc.tables_agree.<table>_of_<function>.tag_<code>_<char>.class_<here>_specified_<committed>.
+    * a table that cannot be extracted at all (the switch is gone) is reported the same way."""
+    import vlib
+    src = open(os.path.join(vlib.REPO, "src/rtosc.c")).read()
+    tabs, errs = extract_tables(src)
+    funcs = {name: func for name, func, _, _ in TABLE_SOURCES}
+    old_txt = open(TABLES_PATH).read() if os.path.exists(TABLES_PATH) else None
+    pseudo = ["Rtosc.Osc.tables_agree.%s_cannot_be_read_from_%s" % (name, funcs[name]) for name in sorted(errs)]
+    if errs:
+        _set_pseudo(pseudo)
+        return "OscTables.lean NOT regenerated, committed file kept: " + "; ".join(
+            "%s (%s)" % (k, v) for k, v in sorted(errs.items()))
+    txt = render_tables(tabs)
+    diff = table_diff(parse_tables(old_txt or ""), tabs)
+    desc = ["%s/%s tag %d '%s': %s -> %s" % (n, funcs[n], t, chr(t), a, b) for n, t, a, b in diff]
+    if vlib._OWN:
+        _set_pseudo([])
+        if old_txt != txt:
+            os.makedirs(os.path.dirname(TABLES_PATH), exist_ok=True)
+            with open(TABLES_PATH, "w") as f:
+                f.write(txt)
+            return "OscTables.lean regenerated (changed: %s)" % ("; ".join(desc) or "layout only")
+        return "OscTables.lean regenerated (unchanged)"
+    # scratch tree: never write the shared file
+    for n, t, a, b in diff:
+        pseudo.append("Rtosc.Osc.tables_agree.%s_of_%s.tag_%d_%s.class_%s_specified_%s" % (
+            n, funcs[n], t, _ident(chr(t)), _ident(b), _ident(a)))
+    _set_pseudo(pseudo)
+    if diff:
+        return ("tables of this tree differ from the committed OscTables.lean (shared file not written for a "
+                "scratch tree): " + "; ".join(desc))
+    return "OscTables.lean compared with this tree's tables (identical; shared file not written for a scratch tree)"
 
 
 TRANSLATORS = [translate_tables]
